@@ -411,6 +411,20 @@ func funcsWithListSpineAccess(c *Ctx) []*ast.FuncDecl {
 				if _, ct := c.spineBase(x); ct != nil && ct.IsList {
 					direct[fd] = true
 				}
+				// a list spine of a named type (`type fields []field`) indexed inside one of its own small methods (`at`, `set`, `cut`):
+				// the methods of the container that call it reach a spine access through it
+				if t := c.typeOf(x); t != nil {
+					if p, ok := t.Underlying().(*types.Pointer); ok {
+						t = p.Elem()
+					}
+					if _, named := t.(*types.Named); named {
+						for _, ct := range c.Inv().Conts {
+							if ct.IsList && types.Identical(t, ct.Spine.Type()) {
+								direct[fd] = true
+							}
+						}
+					}
+				}
 			}
 			return true
 		})
